@@ -167,7 +167,7 @@ def _tree(r, depth):
 
 # ------------------------------------------------------------------ the check
 def run(ctx):
-    from d42 import fake
+    from d42 import fake, represent
     from d42.representation import Representor
     from d42.validation import Formatter
     r = ctx.rng
@@ -193,12 +193,16 @@ def run(ctx):
         ctx.violation(what, rp, failing_input=failing_input)
 
     dist["registration_probes"] = probe_registration(violation)
-    for _ in range(n_trees):
+    for tree_no in range(n_trees):
         ssrc, s = _tree(r, depth)
         for _w in range(2 if r.random() < 0.5 else 1):
-            w, chosen = custom.wrap_random(r, s, rate=r.choice([0.2, 0.35, 0.6]))
+            # every third tree uses ONE forwarding type at all its wrapped positions, each type in turn (so every way of
+            # writing the hooks meets every operation in every run); the others mix the types by position
+            which = (tree_no // 3) % custom.N_FACADES if tree_no % 3 == 0 else None
+            w, chosen = custom.wrap_random(r, s, rate=r.choice([0.2, 0.35, 0.6]), which=which)
+            dist["forwarding_type:" + ("mixed" if which is None else str(which))] += 1
             u = custom.erase_built(w)
-            base = {"kind": "input", "schema": ssrc, "wrap": _wrap_src(chosen)}
+            base = {"kind": "input", "schema": ssrc, "wrap": _wrap_src(chosen), "forwarding_type": which}
             for p, k in chosen.items():
                 dist["wrapped:" + custom.kind_of(p)] += 1
                 if len(p) >= 2:
@@ -223,8 +227,12 @@ def run(ctx):
             # ---- representation
             evaluations += 1
             oracle_cases += 1
+            # the same representor is asked several times, at different indents, for the same objects
             for name, fn in (("repr()", lambda x: repr(x)),
+                             ("represent(indent=4) after repr()", lambda x: represent(x, indent=4)),
+                             ("repr() again", lambda x: repr(x)),
                              ("Representor at indent=4", lambda x: x.__accept__(rep_default, indent=4)),
+                             ("the same Representor at indent=0", lambda x: x.__accept__(rep_default)),
                              ("Representor(name='s', indent=2)", lambda x: x.__accept__(rep_other))):
                 ow, ou = _outcome(lambda: fn(w)), _outcome(lambda: fn(u))
                 if ow[0] != ou[0] or (ow[0] == "ok" and ow[1] != ou[1]):
@@ -413,7 +421,7 @@ def replay(data):
     from d42 import fake
     s = gen.build(data["schema"])
     chosen = dict(eval(data["wrap"], dict(gen.NS)))
-    w = custom.wrap_at(s, chosen)
+    w = custom.wrap_at(s, chosen, which=data.get("forwarding_type"))
     u = custom.erase_built(w)
     print("schema :", data["schema"])
     print("wrapped:", data["wrap"])
